@@ -134,12 +134,12 @@ int main(int argc, char** argv) {
       WriteAll(s.depfile, DepfileText(s));
     }
     if (!bad) {
-      if (s.msvc && !s.notes_last) for (auto& h : s.hidden) printf("Note: including file: %s\n", s.Spelled(h).c_str());
+      if (s.msvc && !s.notes_last) for (auto& h : s.hidden) printf("%s%s\n", s.msvc_prefix.c_str(), s.Spelled(h).c_str());
       fwrite(s.print.data(), 1, s.print.size(), stdout);
       if (s.msvc && s.notes_last) {
         if (!s.print.empty() && s.print.back() != '\n') printf("\n");
         for (size_t i = 0; i < s.hidden.size(); ++i)
-          printf("Note: including file: %s%s", s.Spelled(s.hidden[i]).c_str(), i + 1 < s.hidden.size() ? "\n" : "");
+          printf("%s%s%s", s.msvc_prefix.c_str(), s.Spelled(s.hidden[i]).c_str(), i + 1 < s.hidden.size() ? "\n" : "");
       }
     }
     rc = bad ? 1 : 0;
